@@ -5,6 +5,7 @@ func init() {
 		ID:    "C10",
 		Title: "String literals are HTML-escaped on output; raw() is the exact opt-out",
 		Rules: []string{
+			"R-CUTSET: no strings.Trim/TrimLeft/TrimRight with a constant set of several different characters on the output path (a set, not a suffix: it eats characters of the value)",
 			"R-PURE: no builtin (raw() in particular) writes through its receiver: the escaped value stays escaped in the variable it came from",
 			"R-ESCAPE: the Eval case for *ast.StringLiteral builds its Str.Value from html.EscapeString(node.Value) with exactly the two quote entities restored; html.EscapeString is called only there and html.UnescapeString only in the builtin registered as raw, which returns exactly UnescapeString(receiver); no other evaluator code turns literal text into an output value; readString removes only backslash-quote",
 		},
@@ -12,6 +13,7 @@ func init() {
 		NotDecided:  "TODO",
 		Assumptions: trustedBase,
 		Run: func(m *Model, s *Sink) {
+			m.RunCutset(s, "R-CUTSET")
 			m.RunEscape(s, "R-ESCAPE")
 			// raw() and the other string builtins must not modify the (escaped) value they receive: it is shared with the variable
 			m.RunBuiltinPurity(s, "R-PURE")
